@@ -437,6 +437,23 @@ def failing_leg(ns, res, spec, d, rng):
                 res.violation('py:cli-no-error-line-on-stderr:' + mode, '[cli %s] %r: no "Error [type]" line on stderr: %r (stdout %r)' % (mode, qtext, p.stderr[-200:], p.stdout[:200]), case)
             if b'Error [' in p.stdout:
                 res.violation('py:cli-error-on-stdout:' + mode, '[cli %s] %r: error text on stdout %r' % (mode, qtext, p.stdout[:200]), case)
+    # failures whose exception carries no message at all (a bare assert, StopIteration from a user callback): still a failure
+    empty_msg = [(['--delim', '"', '--policy', 'quoted_rfc', '--query', 'select a1'], 'file'),
+                 (['--delim', ',', '--policy', 'quoted', '--query', "select a1, ARRAY_AGG(a2, lambda v: next(x for x in v if x.startswith('zz'))) group by a1"], 'file'),
+                 (['--delim', ',', '--query', 'select a1, ARRAY_AGG(a2, lambda v: next(iter([]))) group by a1'], 'stdin')]
+    for args, mode in empty_msg:
+        if mode == 'file':
+            p = run_cli(['--input', inp, '--output', os.path.join(d, 'o2.csv')] + args, d)
+        else:
+            with open(inp, 'rb') as f:
+                p = run_cli(args, d, stdin=f.read())
+        res.evaluations += 1
+        res.count('cli_failing_runs')
+        res.count('cli_failing_runs_empty_message')
+        res.distinct_disjoint += 1
+        case = {'leg': 'failing-empty-message', 'args': args, 'mode': mode}
+        if p.returncode == 0 or not [l for l in p.stderr.decode('utf-8', 'replace').splitlines() if l.startswith('Error [')]:
+            res.violation('py:cli-failure-without-message-reported-as-success', '[cli %s] %r: exit %d stderr %r stdout %r' % (mode, args, p.returncode, p.stderr[-200:], p.stdout[:100]), case)
     # warnings go to stderr, stdout holds nothing but table data
     for qtext, kind in (('select a1, a7', 'none'), ('select a1, a2', None)):
         with open(inp, 'rb') as f:
@@ -462,7 +479,7 @@ def summarize(tier, seed, m):
     fe = {k[10:]: v for k, v in m['counters'].items() if k.startswith('front_end:')}
     return {
         'rule': 'rectangular string tables (0-5 rows, 1-4 columns, cells with spaces, quotes, commas, non-ASCII, empty; one case in six with line breaks inside cells, run through the quoted_rfc dialect; duplicated column names in 15% of the headed cases; no tabs) with and without header; type-agnostic structured queries (select / where / order / distinct / distinct count / top / inner join / update / except / aggregates) rotating systematically over clause combinations; each executed through query_table (reference) and through 8 entry points: rbql.query with user-written iterator / writer / registry classes, query_csv, CLI file -> file and stdin -> stdout in the three output formats, query_pandas_dataframe, query_sqlite_to_csv, CLI sqlite; plus failing queries (parsing, execution, IO, syntax) x {file, stdout, sqlite} for exit status / Error [type] on stderr, and warning routing. distinct_nontrivial = distinct (query, tables) with a non-empty result + failing scenarios.',
-        'required': ['cases', 'multiline_cases', 'front_end:query+user-classes', 'front_end:query_csv', 'front_end:pandas', 'front_end:sqlite', 'front_end:cli-sqlite', 'front_end:cli-file-tsv', 'front_end:cli-file-csv', 'front_end:cli-file-input', 'front_end:cli-stdin-stdout-csv', 'cli_failing_runs', 'cli_warning_runs'],
+        'required': ['cases', 'multiline_cases', 'front_end:query+user-classes', 'front_end:query_csv', 'front_end:pandas', 'front_end:sqlite', 'front_end:cli-sqlite', 'front_end:cli-file-tsv', 'front_end:cli-file-csv', 'front_end:cli-file-input', 'front_end:cli-stdin-stdout-csv', 'cli_failing_runs', 'cli_failing_runs_empty_message', 'cli_warning_runs'],
         'extra': {'front_end_comparisons': fe},
         'assumptions': ['query_table is the reference (pinned by C01-C05, C07)', 'types are not compared across back ends (CSV and pandas stringify): cells are compared after the stringification every CSV sink applies', 'scratch files are named in.csv / jn.csv / in_<n>.csv / jn_<n>.csv in a directory c<n> per case: a path containing an a./b. token under a header is the C08 known finding, not a front-end difference'],
     }
